@@ -26,12 +26,11 @@ func isRecoverResult(v ssa.Value) bool {
 func c11(r *core.Run) {
 	p := r.P
 	defer c11Extra(r)
-	r.Explanation = "Decides, on every control-flow path (incl. the recover arm) of the transaction finaliser in lib/store/sqlx, that exactly one of Commit/Rollback runs, Commit only when no panic was recovered and the body's error is nil, and a recovered panic is rolled back and reported; that the finaliser is deferred before the body runs and only after a successful begin; strict/partial and row/rows agreement of the query method families; the ErrNotFound and strict column-count guards of the row mapper."
+	r.Explanation = "Decides, on every control-flow path (incl. the arm for a body that did not return) of the transaction finaliser in lib/store/sqlx, that exactly one of Commit/Rollback runs, Commit only when the body is known to have returned normally (a flag the runner sets after the body call, never recover()!=nil, which misses panic(nil) and runtime.Goexit) and the body's error is nil, and a body that did not return is rolled back and reported; that the finaliser is deferred before the body runs and only after a successful begin; strict/partial and row/rows agreement of the query method families; the ErrNotFound and strict column-count guards of the row mapper."
 	r.NotDecided = "row mapping over all destination shapes and result sets; driver faults; behaviour of database/sql."
 
 	isCommit := core.CallMethod("sqlx.trans", "Commit")
 	isRollback := core.CallMethod("sqlx.trans", "Rollback")
-	recoverNil := core.Cmp(token.EQL, isRecoverResult, core.IsNil)
 	errNil := core.Cmp(token.EQL, c11ErrVarLoad(p), core.IsNil) // the shared error variable (see c11_util.go), read in any form
 
 	// role: the finalisers are the functions of the package that call trans.Commit
@@ -89,14 +88,18 @@ func c11(r *core.Run) {
 	for _, f := range finalisers {
 		f := f
 		name := core.FuncName(f)
-		r.Check("D1/K2/commit-guard/"+name, "Commit is reachable only when recover()==nil and the body's error is nil", func(o *core.O) {
+		// "the body returned normally": a captured flag the runner sets only after the body call (c11_util.go).
+		// recover()!=nil is NOT that fact: it is nil for panic(nil) (go.mod says go 1.19) and for runtime.Goexit.
+		finished, flags, flagWhy := c11BodyReturned(p, f)
+		r.Check("D1/K2/commit-guard/"+name, "Commit is reachable only where the body is known to have returned normally – a flag that the runner sets after the body call and nowhere else, tested by the finaliser – and the body's error is nil [Transact commits iff the function returns nil; a panic is rolled back: recover()==nil does not establish the former, it also holds after panic(nil) and runtime.Goexit]", func(o *core.O) {
 			cs := core.Instrs(f, isCommit)
 			o.Site(len(cs), name)
-			if core.EdgeCount(f, recoverNil) == 0 {
-				o.Fail(p.Pos(f.Pos()), "finaliser never tests recover()")
-			}
-			if w := core.Requires(f, isCommit, recoverNil); w != nil {
-				o.Fail(p.InstrPos(w), "Commit reachable although a panic was recovered (or recover() is not tested)")
+			if flags == 0 {
+				for _, c := range cs {
+					o.Fail(p.InstrPos(c), "Commit reachable although the body may not have returned: the finaliser tests no flag set by the runner after the body call%s (a body that panics with nil, or ends the goroutine, is committed and nil is returned)", c11Because(flagWhy))
+				}
+			} else if w := core.Requires(f, isCommit, finished); w != nil {
+				o.Fail(p.InstrPos(w), "Commit reachable although the body may not have returned normally (panic, also panic(nil), or runtime.Goexit)")
 			}
 			if w := core.Requires(f, isCommit, errNil); w != nil {
 				o.Fail(p.InstrPos(w), "Commit reachable although the body returned an error")
@@ -130,11 +133,16 @@ func c11(r *core.Run) {
 				}
 			}
 		})
-		r.Check("D1/K1/panic-rolled-back-and-reported/"+name, "on the recover()!=nil arm Rollback is called and the caller learns of it (non-nil error stored to the named result, or re-panic)", func(o *core.O) {
-			_, arm := core.EdgesOf(f, recoverNil)
+		r.Check("D1/K1/panic-rolled-back-and-reported/"+name, "on the arm for a body that did not return normally (the runner's flag is unset) Rollback is called and the caller learns of it: a non-nil error is stored to the named result, or the finaliser re-panics, or it never calls recover() so that the panic goes on", func(o *core.O) {
+			if flags == 0 {
+				o.Site(1, name)
+				o.Fail(p.Pos(f.Pos()), "finaliser has no arm for a body that did not return normally%s", c11Because(flagWhy))
+				return
+			}
+			_, arm := core.EdgesOf(f, finished)
 			o.Site(len(arm), name)
 			if len(arm) == 0 {
-				o.Fail(p.Pos(f.Pos()), "finaliser has no recover()!=nil arm")
+				o.Fail(p.Pos(f.Pos()), "finaliser has no arm for a body that did not return normally")
 				return
 			}
 			var from []core.At
@@ -142,7 +150,11 @@ func c11(r *core.Run) {
 				from = append(from, core.Head(e.To))
 			}
 			if w, ok := core.Reach(core.Q{From: from, Target: core.IsExit, Blocked: isRollback}); ok {
-				o.Fail(p.InstrPos(w), "recovered panic: a path ends without Rollback")
+				o.Fail(p.InstrPos(w), "body did not return (panic): a path ends without Rollback")
+			}
+			recovers := core.Instrs(f, func(in ssa.Instruction) bool { v, ok := in.(ssa.Value); return ok && isRecoverResult(v) })
+			if len(recovers) == 0 {
+				return // the panic is not stopped here: it reaches the caller by itself
 			}
 			reports := func(in ssa.Instruction) bool {
 				switch x := in.(type) {
@@ -385,7 +397,7 @@ func c11(r *core.Run) {
 			return false
 		}})
 	})
-	r.Check("D3/K2/strict-column-count", "mapStructFieldsIntoSlice rejects len(columns) < len(fields) exactly in strict mode, before any mapping; tagged fields are looked up by column name", func(o *core.O) {
+	r.Check("D3/K2/strict-column-count", "mapStructFieldsIntoSlice rejects len(columns) < len(fields) exactly in strict mode, before any mapping; the only other rejection with ErrNotMatchDestination is that of a result with more columns than fields, and only when mapping by position (no tags); tagged fields are looked up by column name", func(o *core.O) {
 		f := p.Func(sqlx, "", "mapStructFieldsIntoSlice")
 		if !o.Need(f != nil, "sqlx.mapStructFieldsIntoSlice") {
 			return
@@ -395,21 +407,30 @@ func c11(r *core.Run) {
 		// len(fields) − len(columns) > 0 in any spelling (`len(columns) < len(fields)`, `len(fields) > len(columns)`,
 		// `missing := len(fields)-len(columns); missing > 0`, …); the non-strict form (≥, which would also reject an
 		// exactly matching result) is not accepted
-		alg := &core.Alg{Name: func(v ssa.Value) string {
-			switch {
-			case isFields(v):
-				return "fields"
-			case core.ParamAt(f, 1)(v):
-				return "columns"
-			}
-			return ""
-		}}
+		// (c11ColumnsAlg, c11_r9.go: "columns" is also a slice made with len(columns) elements – `len(values)`)
+		alg := c11ColumnsAlg(f, isFields, nil)
 		fewer := core.CmpPoly(alg, core.ParsePoly("len(fields) - len(columns)"), false)
+		// since fix 43ca335: more columns than fields cannot be mapped by position; that rejection is
+		// not the strict one (it applies to Partial queries too) and is recognised by its own guard
+		surplus := core.CmpPoly(alg, core.ParsePoly("len(columns) - len(fields)"), false)
+		untagged := core.EmptyLen(func(v ssa.Value) bool {
+			return core.IsResult(core.Strip(core.Forward(v)), 0, core.CallTo("lib/store/sqlx.getTaggedFieldValueMap"))
+		})
 		strict := core.BoolVal(core.ParamAt(f, 2))
-		retNM := func(in ssa.Instruction) bool {
+		isNM := func(in ssa.Instruction) bool {
 			ret, ok := in.(*ssa.Return)
 			return ok && core.IsGlobal(sqlx, "ErrNotMatchDestination")(core.Result(ret, 1))
 		}
+		var surplusRets []ssa.Instruction
+		for _, in := range core.Instrs(f, isNM) {
+			if core.EdgeCount(f, surplus) > 0 && core.Requires(f, core.Is(in), surplus) == nil {
+				surplusRets = append(surplusRets, in)
+				if w := core.Requires(f, core.Is(in), untagged); w != nil {
+					o.Fail(p.InstrPos(w), "a result with more columns than fields is rejected although the destination is tagged (surplus columns of a tagged destination are discarded, not an error)")
+				}
+			}
+		}
+		retNM := func(in ssa.Instruction) bool { return isNM(in) && !core.Is(surplusRets...)(in) }
 		rs := core.Instrs(f, retNM)
 		o.Site(len(rs)+core.EdgeCount(f, fewer), core.FuncName(f))
 		if len(rs) == 0 || core.EdgeCount(f, fewer) == 0 {
